@@ -231,16 +231,60 @@ class Mutation:
     def written_roots(self, g):
         """{'this': bool, 'params': set of parameter indices} the function writes observable state through (directly), or None when it
         also mutates through further library calls (then everything it can reach counts)."""
-        for n in g.nodes:
-            if (g.is_call(n) or g.is_construct(n)) and n in g.nodes and self.call_mutates(g, n):
-                return None
         pidx = {pp['id']: i for i, pp in enumerate(g.params)}
         out = {'this': False, 'params': set()}
+        _depth = getattr(self, '_wr_depth', 0)
+        for n in g.nodes:
+            if (g.is_call(n) or g.is_construct(n)) and n in g.nodes and self.call_mutates(g, n):
+                # a helper split further: what the inner helper writes, seen through the binding of this call
+                hs = g.callee_fns(n)
+                if len(hs) != 1 or _depth >= 3:
+                    return None
+                self._wr_depth = _depth + 1
+                try:
+                    wr = self.written_roots(hs[0])
+                finally:
+                    self._wr_depth = _depth
+                if wr is None:
+                    return None
+                obj = g.nodes[n].get('obj')
+                gfresh = self.fresh_locals(g)
+                if wr['this']:
+                    op = path(g, obj) if obj is not None else ('this',)
+                    ovid = root_var_id(op)
+                    if op == ('this',):
+                        out['this'] = True
+                    elif ovid is not None and ovid in pidx and len(op) == 1:
+                        out['params'].add(pidx[ovid])       # a member call on a list handed in by reference
+                    elif ovid is not None and ovid in gfresh:
+                        pass
+                    elif op[0] == 'this' and fields_in(op) and fields_in(op)[0] in NONOBSERVABLE_FIELDS:
+                        pass
+                    else:
+                        return None
+                args = g.call_args(n)
+                for i in wr['params']:
+                    if i >= len(args):
+                        return None
+                    ap = path(g, args[i])
+                    vid = root_var_id(ap)
+                    if vid is not None and vid in pidx and len(ap) == 1:
+                        out['params'].add(pidx[vid])
+                    elif vid is not None and vid in gfresh:
+                        continue
+                    elif ap[0] == 'this' and fields_in(ap) and fields_in(ap)[0] in NONOBSERVABLE_FIELDS:
+                        continue
+                    else:
+                        return None
         for (pos, node, desc) in self.observable_writes(g):
             pass
         for w in self.info.writes(g):
             p = w['path']
             vid = root_var_id(p)
+            if w['how'].startswith(('call:', 'arg:')):
+                cal = g.callee(w['node'])
+                if cal and cal.get('lib') and cal.get('fid', -1) >= 0:
+                    continue      # a library callee with a body: judged through that callee (above)
             if p[0] == 'this':
                 flds = fields_in(p)
                 if flds and flds[0] in NONOBSERVABLE_FIELDS:
